@@ -148,21 +148,60 @@ func runC09(c *core.Ctx) core.Meta {
 					c.ReportAt("R09.1", next, ret.Pos(), tn+":counter-count", fmt.Sprintf("%d increments of %s on the success path; exactly one expected", cnt, counter))
 				}
 			}
-			// pending slot cleared: a store of nil into a field/element whose previous content was the wg
+			// pending slot cleared: the slot set to nil is the slot the dispatched
+			// work-group was taken from. Either the slot is the field whose value is
+			// the reserved work-group, or it is element [k] of a slice where k was
+			// returned, together with the work-group, by one call whose returns all
+			// have the form (slots[k], k) or (nil, _).
 			cleared := false
 			for _, n := range g.Nodes {
-				if s, ok := n.Instr.(*ssa.Store); ok && core.IsNilConst(s.Val) {
-					if strings.Contains(prov.Of(s.Addr), "currWG") {
-						toRet, _ := g.Reach(core.After(n, nil), core.WalkOpts{ForwardOnly: true})
-						if toRet[r] {
-							cleared = true
-						}
-					}
+				s, ok := n.Instr.(*ssa.Store)
+				if !ok || !core.IsNilConst(s.Val) || !strings.Contains(prov.Of(s.Addr), "currWG") {
+					continue
+				}
+				toRet, _ := g.Reach(core.After(n, nil), core.WalkOpts{ForwardOnly: true})
+				if !toRet[r] {
+					continue
+				}
+				cleared = true
+				okSlot, why := slotIsSourceOf(prov, s.Addr, core.CallOf(rv.Instr).Args[0])
+				st1.Ob(okSlot)
+				if !okSlot {
+					c.ReportAt("R09.1", n.Fn(), s.Pos(), tn+":slot-not-source", "the pending slot cleared on the success path is not the slot the dispatched work-group was taken from ("+why+"): the work-group stays pending and is dispatched again while another one is dropped")
 				}
 			}
 			st1.Ob(cleared)
 			if !cleared {
 				c.ReportAt("R09.1", next, ret.Pos(), tn+":slot-not-cleared", "the pending work-group slot is not cleared on the success path: the same work-group is dispatched again")
+			}
+			// per-source counters (partitions[k].dispatchedWG) use the same k
+			for _, n := range g.Nodes {
+				s, ok := n.Instr.(*ssa.Store)
+				if !ok || n.Frame.Parent != nil {
+					continue
+				}
+				fa, ok := s.Addr.(*ssa.FieldAddr)
+				if !ok {
+					continue
+				}
+				ld, ok := fa.X.(*ssa.UnOp)
+				if !ok {
+					continue
+				}
+				ia, ok := ld.X.(*ssa.IndexAddr)
+				if !ok {
+					continue
+				}
+				if bo, isB := s.Val.(*ssa.BinOp); !isB || bo.Op != token.ADD {
+					continue
+				}
+				st1.Instances++
+				wgP := prov.Of(core.CallOf(rv.Instr).Args[0])
+				okIdx := prov.Of(ia.Index) == wgP+"#1"
+				st1.Ob(okIdx)
+				if !okIdx {
+					c.ReportAt("R09.1", next, s.Pos(), tn+":source-counter-index", fmt.Sprintf("a per-source dispatched counter is incremented at index %s, which is not the source index returned with the dispatched work-group (%s#1)", short(prov.Of(ia.Index)), short(wgP)))
+				}
 			}
 		}
 		// FreeResources
@@ -895,4 +934,66 @@ func ldsDemandOK(c *core.Ctx, prov *core.Prov, u, gran string) bool {
 		}
 	}
 	return okRet && sawCmp
+}
+
+// slotIsSourceOf decides whether the address that is cleared names the slot
+// the work-group value was read from.
+func slotIsSourceOf(prov *core.Prov, addr ssa.Value, wg ssa.Value) (bool, string) {
+	wgP := prov.Of(wg)
+	switch a := addr.(type) {
+	case *ssa.FieldAddr:
+		// a.currWG = nil with wg == a.currWG
+		stT, ok := a.X.Type().Underlying().(*types.Pointer)
+		if !ok {
+			return false, "slot address not understood"
+		}
+		sT, ok := stT.Elem().Underlying().(*types.Struct)
+		if !ok {
+			return false, "slot address not understood"
+		}
+		want := prov.Of(a.X) + "." + sT.Field(a.Field).Name()
+		if want == wgP {
+			return true, ""
+		}
+		return false, "slot " + want + ", work-group " + short(wgP)
+	case *ssa.IndexAddr:
+		idxP := prov.Of(a.Index)
+		if idxP != wgP+"#1" {
+			return false, "index " + short(idxP) + " is not the index returned with the work-group, " + short(wgP) + "#1"
+		}
+		// the callee's returns pair each work-group with its own index
+		ex, ok := core.StripConv(wg).(*ssa.Extract)
+		if !ok {
+			return false, "work-group is not a result of the call that returns the index"
+		}
+		call, ok := ex.Tuple.(*ssa.Call)
+		if !ok || call.Call.StaticCallee() == nil {
+			return false, "source call not resolved"
+		}
+		cal := call.Call.StaticCallee()
+		for _, b := range cal.Blocks {
+			for _, in := range b.Instrs {
+				ret, ok := in.(*ssa.Return)
+				if !ok || len(ret.Results) != 2 {
+					continue
+				}
+				if core.IsNilConst(ret.Results[0]) {
+					continue
+				}
+				ld, ok := ret.Results[0].(*ssa.UnOp)
+				if !ok {
+					return false, cal.Name() + " returns a work-group that is not read from a slot"
+				}
+				ia, ok := ld.X.(*ssa.IndexAddr)
+				if !ok {
+					return false, cal.Name() + " returns a work-group that is not read from a slot"
+				}
+				if core.StripConv(ia.Index) != core.StripConv(ret.Results[1]) {
+					return false, cal.Name() + " returns slots[" + ia.Index.Name() + "] together with index " + ret.Results[1].Name()
+				}
+			}
+		}
+		return true, ""
+	}
+	return false, "slot address not understood"
 }
